@@ -15,7 +15,7 @@ say() { echo "$@" | tee -a "$LOG"; }
 if ( cd "$D" && go test -vet=off -count=1 -timeout 300s ./... 2>&1 | grep -E '^(FAIL|---|panic)' | head -3 | grep . ); then say "existing tests: FAIL with the change (not admissible)"; exit 2; else say "existing tests: pass with the change"; fi
 # demo
 DEMO=""
-for f in "$SRC"/demo_test.go "$SRC"/*_test.go "$SRC"/demo_test.go.txt; do [ -f "$f" ] && DEMO="$f" && break; done
+if [ ! -f "$SRC/run.sh" ]; then for f in "$SRC"/demo_test.go "$SRC"/*_test.go "$SRC"/demo_test.go.txt; do [ -f "$f" ] && DEMO="$f" && break; done; fi
 RES_WITH=skipped; RES_WITHOUT=skipped
 if [ -n "$DEMO" ]; then
   PKGDIR=$(grep -m1 -E '^package ' "$DEMO" | awk '{print $2}')
@@ -46,7 +46,7 @@ mkdir -p /verif/seeded/$ID
 if [ "$SRC" != "/verif/seeded/$ID" ]; then
 [ -n "$DEMO" ] && cp "$DEMO" /verif/seeded/$ID/demo_test.go.txt
 [ -f "$SRC/run.sh" ] && cp "$SRC/run.sh" /verif/seeded/$ID/run.sh
-for aux in "$SRC"/main.go "$SRC"/demo_main.go "$SRC"/*.yml "$SRC"/*.txt; do [ -f "$aux" ] && cp "$aux" /verif/seeded/$ID/; done
+for aux in "$SRC"/main.go "$SRC"/demo_main.go "$SRC"/*_linux_test.go "$SRC"/*.yml "$SRC"/*.txt; do [ -f "$aux" ] && cp "$aux" /verif/seeded/$ID/; done
 [ -f "$SRC/demo_dir" ] && cp "$SRC/demo_dir" /verif/seeded/$ID/demo_dir
 [ -f "$SRC/meta.json" ] && cp "$SRC/meta.json" /verif/seeded/$ID/agent_meta.json
 fi
